@@ -8,11 +8,10 @@ From DvcData Require Import Base.Val Base.PyBase Gen.PyTypes Gen.IDiff Model.Idx
 Import ListNotations.
 Open Scope N_scope.
 
-(* prior workspace: prefix closed (every non-empty strict prefix of a path is a directory), no
-   broken links, the root itself is no entry *)
+(* prior workspace: prefix closed (every non-empty strict prefix of a path is a directory), the root itself
+   is no entry; it MAY hold broken links (Dangling) *)
 Definition ws_ok (w : ws) : Prop :=
   (forall k, lookup w k <> None -> forall p, strict_prefix p k = true -> p <> [] -> lookup w p = Some Dir)
-  /\ (forall k, lookup w k <> Some Dangling)
   /\ lookup w [] = None.
 (* target: every non-empty strict prefix of a key has a directory entry (build(), lazy loading) *)
 Definition dirs_explicit (t' : target) : Prop :=
@@ -157,7 +156,7 @@ Section DeletePhase.
     lookup (ws2 p w) k =
     if fd true (lookup w k) (lookup t' k) || dd true (lookup w k) (lookup t' k) (has_node t' k) then None else lookup w k.
   Proof.
-    destruct Hw as [Hpc [Hnd Hroot]].
+    destruct Hw as [Hpc Hroot].
     assert (W1 : forall k, lookup (ws1 p w) k = if fd true (lookup w k) (lookup t' k) then None else lookup w k).
     { intros k. unfold ws1. rewrite rm_fold_spec.
       - destruct (mem_key k (files_delete (fst p))) eqn:E.
@@ -191,7 +190,7 @@ Section DeletePhase.
         assert (I1 : In k' (dirs_delete (fst p))).
         { apply In_dirs_delete. fold t'. rewrite TN, HN. unfold dd, fd in *. rewrite TN in F.
           destruct (lookup w k') as [[]|] eqn:E1; simpl in *; try congruence.
-          all: try (exfalso; eapply Hnd; eauto). }
+          }
         rewrite <- sort_desc_In, EL in I1. apply in_app_iff in I1 as [I1|[<-|I1]]; auto.
         * apply strict_prefix_length in P. lia.
         * pose proof (sorted_desc_split _ (sort_desc_sorted _) _ _ _ EL _ I1). apply strict_prefix_length in P. lia.
@@ -219,11 +218,10 @@ Definition ex2_target : target := [([[97]], TFile true (Some [9])); ([[107]], TF
 
 Example ex2_ws_ok : ws_ok ex2_ws.
 Proof.
-  repeat split.
-  - intros k H. apply lookup_In_keys in H. simpl in H.
-    repeat (destruct H as [<-|H]); try contradiction; intros p P NE; apply strict_prefix_In in P; simpl in P;
-      repeat (destruct P as [<-|P]); try contradiction; reflexivity.
-  - intros k H. apply lookup_In in H. simpl in H. repeat (destruct H as [H|H]); try discriminate; auto.
+  split; [|reflexivity].
+  intros k H. apply lookup_In_keys in H. simpl in H.
+  repeat (destruct H as [<-|H]); try contradiction; intros p P NE; apply strict_prefix_In in P; simpl in P;
+    repeat (destruct P as [<-|P]); try contradiction; reflexivity.
 Qed.
 Example ex2_dirs_explicit : dirs_explicit (fst (expand [] ex2_target)).
 Proof.
@@ -233,7 +231,7 @@ Proof.
 Qed.
 (* the whole checkout on it, by computation: the workspace IS the target *)
 Example ex2_converges :
-  let o := checkout Hardlink true [[9]; [3]] [] [] ex2_ws ex2_target in
+  let o := checkout Hardlink true [[9]; [3]] [] [] [] ex2_ws ex2_target in
   o_ws o = [([[97]], File [9] true true); ([[107]], File [3] false false)] /\ o_errs o = [] /\ o_raised o = false /\
   fst (compare false true (o_ws o) [] ex2_target) = [].
 Proof. repeat split; vm_compute; reflexivity. Qed.
